@@ -439,6 +439,10 @@ pub enum IOp {
     Drain(u8),
     /// drain(), take n items from the front, mem::forget the iterator
     DrainForget(u8),
+    /// clone, continue with the clone, and meanwhile use and drop the source: 0 clear;
+    /// 1 remove_lru + insert + set_max_size(0); 2 drain, take one, forget; 3 mutate the MRU value
+    /// in place (resize), retain nothing
+    CloneDisturb(u8),
     /// every other &self accessor: len, is_empty, capacity, current_size, max_size, hasher,
     /// iter / keys / values in both directions, clone (the clone is dropped)
     ReadAll,
@@ -485,6 +489,9 @@ fn alphabet<T: Inst>() -> Vec<IOp> {
     a.push(IOp::DrainForget(0));
     a.push(IOp::DrainForget(1));
     a.push(IOp::ReadAll);
+    for i in 0..4 {
+        a.push(IOp::CloneDisturb(i));
+    }
     for kind in 0..3 {
         for pat in 0..NPATS {
             a.push(IOp::Owning(kind, pat));
@@ -984,6 +991,45 @@ impl<T: Inst> Run<T> {
                 };
                 (R::Drained(act), R::Drained(exp))
             }
+            IOp::CloneDisturb(i) => {
+                self.is_rebuild_op = true;
+                self.cloned = true;
+                if T::CLONE_BUMPS {
+                    self.m.l.iter_mut().for_each(|x| x.tag += 1);
+                }
+                let mut src = self.c.clone();
+                std::mem::swap(&mut self.c, &mut src);
+                // `src` is the original now; whatever happens to it must not show in the clone
+                let p0 = hashes();
+                let saved_fuel = fuel();
+                set_fuel(None);
+                match i {
+                    0 => src.clear(),
+                    1 => {
+                        let _ = src.remove_lru();
+                        let (v, _) = self.fresh(0);
+                        let _ = src.insert(T::key(0), v);
+                        src.set_max_size(0);
+                    }
+                    2 => {
+                        let mut d = src.drain();
+                        let _ = d.next();
+                        std::mem::forget(d);
+                        self.leaky = true;
+                    }
+                    _ => {
+                        if let Some(k) = self.m.l.last().map(|x| x.id) {
+                            let _ = T::with_q(k, |q| src.mutate(q, |v| T::resize(v, T::VSEL - 1)));
+                        }
+                        src.retain(|_, _| false);
+                    }
+                }
+                drop(src);
+                set_fuel(saved_fuel);
+                self.hash_exclude = hashes() - p0;
+                self.refresh_actual();
+                (R::Unit, R::Unit)
+            }
             IOp::ReadAll => {
                 self.read_only = true;
                 self.is_rebuild_op = true; // clone() hashes every entry once
@@ -1060,6 +1106,7 @@ fn owner(op: IOp) -> Props {
         IOp::DrainForget(_) => p(17),
         IOp::Owning(..) => p(12) | p(6),
         IOp::ReadAll => p(19),
+        IOp::CloneDisturb(_) => p(14),
     }
 }
 
@@ -1107,6 +1154,8 @@ struct Job {
     /// second steps are explored only after these first steps (None: after all)
     second_after: Option<Vec<IOp>>,
     label: &'static str,
+    /// Some: explore only these operations (deep jobs over a core alphabet)
+    alpha: Option<Vec<IOp>>,
     /// position in the deterministic job list (containment records)
     id: u32,
     /// 0 = differential, 1 = fault injection
@@ -1146,6 +1195,7 @@ fn code(op: IOp) -> [u8; 3] {
         IOp::DrainForget(n) => [26, n, 0],
         IOp::Owning(a, b) => [27, a, b],
         IOp::ReadAll => [28, 0, 0],
+        IOp::CloneDisturb(i) => [29, i, 0],
     }
 }
 
@@ -1181,6 +1231,7 @@ fn uncode(c: &[u8]) -> Option<IOp> {
         26 => IOp::DrainForget(c[1]),
         27 => IOp::Owning(c[1], c[2]),
         28 => IOp::ReadAll,
+        29 => IOp::CloneDisturb(c[1]),
         _ => return None,
     })
 }
@@ -1455,6 +1506,9 @@ fn run_seq<T: Inst>(job: &Job, sm: [usize; 5], seq: &[IOp], out: &mut InstResult
         if matches!(last, IOp::CloneSwap) && c.capacity() < pre_cap {
             problems.push((p(14), "C14.capacity", format!("clone has capacity {} < source {pre_cap}", c.capacity())));
         }
+        if matches!(last, IOp::Reserve | IOp::TryReserve) && c.capacity() < c.len() + 9 {
+            problems.push((p(13), "C13.reserve", format!("after reserve(9) capacity() = {} < len {} + 9", c.capacity(), c.len())));
+        }
         if c.capacity() < c.len() {
             problems.push((own | p(13), "C13.capacity", format!("capacity() = {} < len() = {}", c.capacity(), c.len())));
         }
@@ -1465,6 +1519,18 @@ fn run_seq<T: Inst>(job: &Job, sm: [usize; 5], seq: &[IOp], out: &mut InstResult
         let want_v: Vec<u32> = want.iter().rev().map(|x| x.1).collect();
         if (ks != want_k || vs != want_v) && got_it == want {
             problems.push((p(12), "C12.sequence", format!("keys() yields {ks:?} (expected {want_k:?}), values().rev() yields {vs:?} (expected {want_v:?})")));
+        }
+        if got_it == want {
+            // every lookup returns the entry the traversal holds for that key
+            for id in 0..T::NKEYS.max(want.iter().map(|x| x.0 + 1).max().unwrap_or(0)).min(8) {
+                let held = want.iter().find(|x| x.0 == id).copied();
+                let found = quiet(|| T::with_q(id, |q| c.peek_entry(q).map(|(k, v)| (T::kid(k), T::vtag(v)))));
+                let has = quiet(|| T::with_q(id, |q| c.contains(q)));
+                if found != held || has != held.is_some() {
+                    problems.push((own | p(4), "C04.lookup", format!("peek_entry of key {id} finds {found:?}, contains says {has}, but the cache holds {held:?}")));
+                    break;
+                }
+            }
         }
         if got_it == want && seq.len() <= 2 {
             let n = want.len();
@@ -1545,7 +1611,7 @@ fn run_job<T: Inst>(job: Job) -> InstResult {
         });
     }
     let sm = [0, small, large, 2 * large, usize::MAX];
-    let alpha = alphabet::<T>();
+    let alpha = job.alpha.clone().unwrap_or_else(alphabet::<T>);
     // prefix keys are taken modulo the number of keys of the instantiation where it is small
     let job = Job {
         prefix: job
@@ -1584,7 +1650,7 @@ fn run_job<T: Inst>(job: Job) -> InstResult {
 }
 
 /// All instantiations x {constant, spread} hasher x {unbounded, tight} start.
-pub fn explore(depth: usize, ladder: usize, threads: usize, skips: &[(String, String)]) -> InstResult {
+pub fn explore(depth: usize, ladder: usize, deep: usize, threads: usize, skips: &[(String, String)]) -> InstResult {
     let skips = std::sync::Arc::new(skips.to_vec());
     type JobFn = Box<dyn FnOnce() -> InstResult + Send>;
     let mut jobs: Vec<JobFn> = vec![];
@@ -1603,7 +1669,7 @@ pub fn explore(depth: usize, ladder: usize, threads: usize, skips: &[(String, St
                 }
                 for (label, prefix) in &prefixes {
                     for (limit, cap) in [(usize::MAX, None), (0usize, Some(3usize))] {
-                        let job = Job { hk, limit, cap, depth, prefix: prefix.clone(), second_after: None, label, id: jobs.len() as u32, mode: 0, skips: skips.clone() };
+                        let job = Job { hk, limit, cap, depth, prefix: prefix.clone(), second_after: None, label, alpha: None, id: jobs.len() as u32, mode: 0, skips: skips.clone() };
                         jobs.push(Box::new(move || run_job::<$t>(job)));
                     }
                 }
@@ -1619,6 +1685,7 @@ pub fn explore(depth: usize, ladder: usize, threads: usize, skips: &[(String, St
                             prefix,
                             second_after: Some(vec![CloneSwap, CloneFrom(0), CloneFrom(1), CloneFrom(2), CloneFrom(3)]),
                             label: "ladder",
+                            alpha: None,
                             id: jobs.len() as u32,
                             mode: 0,
                             skips: skips.clone(),
@@ -1637,6 +1704,29 @@ pub fn explore(depth: usize, ladder: usize, threads: usize, skips: &[(String, St
     add!(UnitVal);
     add!(UnitKey);
     add!(DefaultHasherView);
+    // deep jobs: no state is ever merged here, so state the canonical key of the main engine
+    // cannot see (a cached pointer, a hint, a flag) is carried along every history
+    let core: Vec<IOp> = vec![
+        Insert(0, 0), Insert(1, 0), Insert(2, 0), Insert(1, 1), Remove(0), Remove(1), Remove(2), Get(0), Get(1), Get(2),
+        Touch(2), Mutate(1, 1), Mutate(0, 0), TryInsert(2, 0), Peek(1), RemoveLru, GetLru, SetMax(2), SetMax(4), ShrinkToFit,
+    ];
+    macro_rules! add_deep {
+        ($t:ty) => {
+            for hk in [HK::Const, HK::Spread] {
+                for (limit, cap) in [(usize::MAX, None), (0usize, Some(3usize))] {
+                    // one job per first operation, for parallelism
+                    for first in &core {
+                        let job = Job { hk, limit, cap, depth: deep - 1, prefix: vec![*first], second_after: None, label: "first operation", alpha: Some(core.clone()), id: jobs.len() as u32, mode: 0, skips: skips.clone() };
+                        jobs.push(Box::new(move || run_job::<$t>(job)));
+                    }
+                }
+            }
+        };
+    }
+    if deep > 1 {
+        add_deep!(PlainKeyTracked);
+        add_deep!(U64View);
+    }
     jobs.reverse();
     run_jobs(jobs, threads)
 }
@@ -1768,7 +1858,7 @@ fn fault_seq<T: Inst>(job: &Job, sm: [usize; 5], seq: &[IOp], out: &mut InstResu
     let Ok((c0, c1)) = dry else { return };
     for kind in FAULT_KINDS {
         let cnt = c1[kind as usize] - c0[kind as usize];
-        for idx in 0..cnt.min(48) {
+        for idx in 0..cnt.min(if job.label == "ladder" { 400 } else { 48 }) {
             reg_reset();
             set_fuel(None);
             if let Some(why) = announce(job, T::NAME, seq, Some((kind, idx))) {
@@ -1906,7 +1996,7 @@ fn fault_job<T: Inst>(job: Job) -> InstResult {
     let small = esize::<T>(&k0, &T::val(0, 0));
     let large = esize::<T>(&k0, &T::val(0, T::VSEL - 1));
     let sm = [0, small, large, 2 * large, usize::MAX];
-    let alpha = alphabet::<T>();
+    let alpha = job.alpha.clone().unwrap_or_else(alphabet::<T>);
     let job = Job {
         prefix: job
             .prefix
@@ -1945,7 +2035,7 @@ fn fault_job<T: Inst>(job: Job) -> InstResult {
 
 /// C16: every instantiation x hasher x prefix x {unbounded, exactly full}, every
 /// sequence of <= depth operations, the last one with a panic at every callback index.
-pub fn explore_faults(depth: usize, threads: usize, skips: &[(String, String)]) -> InstResult {
+pub fn explore_faults(depth: usize, ladder_sizes: &[usize], threads: usize, skips: &[(String, String)]) -> InstResult {
     let skips = std::sync::Arc::new(skips.to_vec());
     type JobFn = Box<dyn FnOnce() -> InstResult + Send>;
     let mut jobs: Vec<JobFn> = vec![];
@@ -1965,7 +2055,7 @@ pub fn explore_faults(depth: usize, threads: usize, skips: &[(String, String)]) 
                 }
                 for (label, prefix) in &prefixes {
                     for (limit, cap) in [(usize::MAX, None), (0usize, Some(3usize))] {
-                        let job = Job { hk, limit, cap, depth, prefix: prefix.clone(), second_after: None, label, id: jobs.len() as u32, mode: 1, skips: skips.clone() };
+                        let job = Job { hk, limit, cap, depth, prefix: prefix.clone(), second_after: None, label, alpha: None, id: jobs.len() as u32, mode: 1, skips: skips.clone() };
                         jobs.push(Box::new(move || fault_job::<$t>(job)));
                     }
                 }
@@ -1979,6 +2069,21 @@ pub fn explore_faults(depth: usize, threads: usize, skips: &[(String, String)]) 
     add!(Aligned);
     add!(UnitVal);
     add!(UnitKey);
+    // ladder: larger fills, every operation that rebuilds or walks the whole table, every callback index
+    let walkers: Vec<IOp> = vec![Reserve, TryReserve, ShrinkToFit, ShrinkTo0, Insert(250, 0), CloneSwap, CloneFrom(0), CloneFrom(3), Retain(0), Retain(3), SetMax(2), Mutate(0, 1), Clear, Drain(2)];
+    macro_rules! add_ladder {
+        ($t:ty) => {
+            for hk in [HK::Const, HK::Spread] {
+                for n in ladder_sizes.iter().copied() {
+                    let prefix: Vec<IOp> = (0..n as u32).map(|k| Insert(k, (k % 2) as usize)).collect();
+                    let job = Job { hk, limit: usize::MAX, cap: None, depth: 1, prefix, second_after: None, label: "ladder", alpha: Some(walkers.clone()), id: jobs.len() as u32, mode: 1, skips: skips.clone() };
+                    jobs.push(Box::new(move || fault_job::<$t>(job)));
+                }
+            }
+        };
+    }
+    add_ladder!(TrackedKeyView);
+    add_ladder!(U64View);
     jobs.reverse();
     run_jobs(jobs, threads)
 }
